@@ -270,7 +270,7 @@ def check_output(ok, panic, text, files_abs, libs_dir=None):
     bad = []
     if panic:
         if is_hang(panic):
-            if "out of memory" in panic or "cannot allocate" in panic:
+            if "out of memory" in panic or "cannot allocate" in panic or "pthread_create failed" in panic:
                 return [("hang", "the compiler allocates without bound: it ran into the %.1f GiB address-space cap (%s)" %
                          (STREAM_MEM_GIB, "top frame " + frame_key(panic)))]
             return [("hang", "the compiler did not terminate: " + panic.splitlines()[0][:120])]
@@ -339,7 +339,7 @@ def html_to_text(s):
     return html.unescape(_TAG.sub("", s)).replace("\xa0", " ")
 
 REQ_TIMEOUT_MS = 8000        # "terminates in bounded time": per-compile limit inside the in-process driver
-STREAM_MEM_GIB = 2.0         # address-space cap of a driver process: a runaway allocation dies within a second or two
+STREAM_MEM_GIB = 3.0         # address-space cap of a driver process: a runaway allocation dies within a second or two
 
 def is_fatal(r):
     """crash / hang / death of the driver — the outcomes the fail-fast counter looks at."""
@@ -347,7 +347,7 @@ def is_fatal(r):
 
 def is_hang(panic):
     return bool(panic) and (panic.startswith("timeout:") or "TIMEOUT" in panic[:200] or "out of memory" in panic or
-                            "cannot allocate memory" in panic)
+                            "cannot allocate memory" in panic or "pthread_create failed" in panic)
 
 class Budget:
     """shared by all slices: wall-clock deadline of the tie stage and the fail-fast counter of crash/hang answers."""
@@ -799,13 +799,14 @@ def cli_case(work, idx, kind, files, mode, _retry=False):
     t0 = time.time()
     env_libs = common.impl().libs
     try:
-        p = subprocess.run([common.impl().ferret] + args, cwd=d, stdout=subprocess.PIPE, stderr=subprocess.PIPE, timeout=40 if _retry else 20, preexec_fn=common.limit_mem(),
+        p = subprocess.run([common.impl().ferret] + args, cwd=d, stdout=subprocess.PIPE, stderr=subprocess.PIPE, timeout=25 if _retry else 20,
+                           preexec_fn=common.limit_mem(4),
                            env=dict(os.environ, NO_COLOR="1", FERRET_LIBS_PATH=env_libs))
         rc, so, se = p.returncode, common.strip_ansi(p.stdout.decode("utf8", "replace")), common.strip_ansi(p.stderr.decode("utf8", "replace"))
     except subprocess.TimeoutExpired:
         rc, so, se = -9, "", "TIMEOUT"
     wall = time.time() - t0
-    if (rc == -9 or wall > 10) and not _retry:
+    if (rc == -9 or wall > 10 or b"pthread_create failed" in (se + so).encode()[:400]) and not _retry:
         # the machine is shared: judge slowness on a second, solitary run
         with _CLI_LOCK:
             return cli_case(work, idx, kind, files, mode, _retry=True)
@@ -813,6 +814,8 @@ def cli_case(work, idx, kind, files, mode, _retry=False):
     bad = []
     if rc == -9 or wall > 10:
         bad.append(("hang", "the CLI did not finish within 10 s (%.1f s)" % wall))
+    elif "out of memory" in text or "cannot allocate memory" in text:
+        bad.append(("hang", "the CLI allocates without bound: it ran into the address-space cap (top frame %s)" % frame_key(text)))
     elif rc not in (0, 1) or "panic:" in text or "goroutine " in text or "fatal error:" in text:
         bad.append(("crash:" + frame_key(text), "the CLI crashed (exit status %d): %s" % (rc, (re.search(r"(panic:|fatal error:).*", text) or [text[:120]])[0][:160])))
     else:
@@ -859,12 +862,15 @@ def probe_known_findings(run, work):
         for key, what in bads:
             if key == k["key"]:
                 hit = True
+            if key == "hang":
+                key = "hang:" + hashlib.sha256(repr(sorted((nm, v) for nm, v in files.items())).encode()).hexdigest()[:12]
             run.violation(key, what, replay_dict("known-finding-probe", files, mode, {"observed": (r["panic"] or r["out"])[:1500]}))
         if hit:
             reproduced.append(k["id"])
         else:
-            print("NOTE: property=C13 known finding %s no longer reproduces on its recorded input (observed keys: %s) — "
-                  "close it in harness/meta/C13.findings.json" % (k["id"], [b[0] for b in bads] or "none"))
+            print("NOTE: property=C13 known finding %s did not reproduce on its recorded input (observed keys: %s)%s" %
+                  (k["id"], [b[0] for b in bads] or "none",
+                   "" if bads else " — if this is the unchanged tree, close it in harness/meta/C13.findings.json"))
     run.extra["known_finding_probes"] = {"probed": [m[1]["id"] for m in meta], "reproduced": reproduced}
 
 # ------------------------------------------------------------------------------------------------ main
@@ -946,7 +952,7 @@ def main(run):
             rr = run_lexer_hook([b], timeout=5, max_restarts=0)[0]
             if rr is None or rr["p"]:
                 return False
-            ids, _ = lexer_correspondence(run, [b], [rr], "shr")
+            ids, _ = lexer_correspondence(run, [b], [rr], "shr", timeout=60)
             return bool(ids)
         small = shrink_bytes(lin[i], differs, budget=25)
         rr = run_lexer_hook([small])[0]
@@ -978,16 +984,24 @@ def main(run):
         reqs.append(dict(id=i, file=os.path.join(d, "main.fer"), mode=mode, out=out))
         meta.append((k, files, fa, mode, out))
     t0 = time.time()
-    res = run_batch(reqs, timeout=240 if quick else 1200)
+    res = run_batch(reqs, timeout=240 if quick else 780, budget=budget) if not budget.stop() else {}
     run.extra["batch_wall_s"] = round(time.time() - t0, 1)
+    redo = [q for q in reqs if q["id"] in res and "pthread_create failed" in (res[q["id"]]["panic"] or "")][:6]
+    for q in redo:
+        res.update(run_batch([q], nproc=1, timeout=40))
+    run.extra["stream_generated"] = len(reqs); run.extra["stream_run"] = len(res)
+    if len(res) < len(reqs):
+        run.extra["tie_stage_truncated"] = "malformed stream stopped after %d of %d cases: %s" % (len(res), len(reqs), budget.why)
     libs = common.impl().libs
     seen_keys = {}
     for i, (k, files, fa, mode, out) in enumerate(meta):
-        r = res[i]
+        r = res.get(i)
+        if r is None:
+            run.count("stream-not-run"); continue
         run.case(("proj", canon_case(files)), nontrivial=True,
                  sample={"kind": k, "main.fer": (files.get("main.fer") or b"")[:80].decode("latin1"), "ok": r["ok"]} if i in (3, 1000) else None)
         run.count("stream:" + k.split("+")[0]); run.count("mode:" + mode)
-        run.count("verdict:" + ("crash" if r["panic"] else "accepted" if r["ok"] else "rejected"))
+        run.count("verdict:" + ("hang" if is_hang(r["panic"]) else "crash" if r["panic"] else "accepted" if r["ok"] else "rejected"))
         bads = check_output(r["ok"], r["panic"], r["out"], fa, libs)
         if not r["panic"]:
             bads += artifact_bads(r["ok"], mode, out, r["out"])
@@ -995,28 +1009,58 @@ def main(run):
             size = sum(len(v or b"") for v in files.values())
             if key not in seen_keys or size < seen_keys[key][0]:
                 seen_keys[key] = (size, i, what)
-    for key, (size, i, what) in sorted(seen_keys.items()):
+    # report: crash / hang keys first; shrinking is bounded (attempts, per-attempt compile timeout, total time)
+    order = sorted(seen_keys.items(), key=lambda kv: (0 if kv[0].startswith(("hang", "crash")) else 1, kv[0]))
+    shrink_until = time.time() + (60 if quick else 180)
+    for key, (size, i, what) in order:
         k, files, fa, mode, out = meta[i]
         small = files
-        if len(files) == 1 and size > 8 and not key.startswith("hang") and run._match_known(key) is None:
+        if (len(files) == 1 and size > 8 and run._match_known(key) is None and time.time() < shrink_until
+                and not key.startswith("artifact")):
             def still(b, key=key, mode=mode):
+                if time.time() >= shrink_until:
+                    return False
                 d2, fa2 = write_case(work, 900000 + rng.randrange(10 ** 6), {"main.fer": b})
-                rr = run_batch([dict(id=0, file=os.path.join(d2, "main.fer"), mode=mode, out=os.path.join(d2, "out"))], nproc=1, timeout=60)[0]
+                rr = run_batch([dict(id=0, file=os.path.join(d2, "main.fer"), mode=mode, out=os.path.join(d2, "out"))], nproc=1, timeout=20,
+                               req_timeout_ms=3000)[0]
                 return any(kk == key for kk, _ in check_output(rr["ok"], rr["panic"], rr["out"], fa2, libs))
-            small = {"main.fer": shrink_bytes(files["main.fer"], still, budget=40)}
-        run.violation(key, what, replay_dict(k, small, mode, {"observed": (res[i]["panic"] or res[i]["out"])[:1500]}))
+            small = {"main.fer": shrink_bytes(files["main.fer"], still, budget=30)}
+        rkey = key
+        if key == "hang":      # canonical key of a hang: hash of the (shrunk) hanging input — there is no stack to name
+            rkey = "hang:" + hashlib.sha256(repr(sorted((n, v) for n, v in small.items())).encode()).hexdigest()[:12]
+        run.violation(rkey, what, replay_dict(k, small, mode, {"observed": (res[i]["panic"] or res[i]["out"])[:1500],
+                                                               "time_limit_ms": REQ_TIMEOUT_MS, "address_space_cap_gib": STREAM_MEM_GIB}))
     phase["stream"] = round(time.time() - tph, 1); tph = time.time()
     # ---------------- a sample through the real CLI (exit status, stderr, wall time, output path)
     ncli = 36 if quick else 150
-    pick = [i for i in range(len(meta)) if meta[i][0] == "seed"] + rng.sample(range(len(meta)), ncli)
+    if budget.stop():
+        ncli = 0
+        run.extra["tie_stage_truncated"] = (run.extra.get("tie_stage_truncated", "") + "; CLI sample skipped: %s" % budget.why).lstrip("; ")
+    ran = [i for i in range(len(meta)) if i in res]
+    pick = ([i for i in ran if meta[i][0] == "seed"] + rng.sample(ran, min(ncli, len(ran)))) if ncli else []
     jobs = [(j, meta[i][0], meta[i][1], ("native" if meta[i][0] == "seed" else rng.choice(["t", "native", "native", "wasm"])), i) for j, i in enumerate(pick)]
-    jobs += [(len(jobs) + j, "qbe-probe", {"main.fer": p}, "native", None) for j, p in enumerate(QBE_PROBES)]
-    cres = common.pmap(lambda jb: cli_case(work, jb[0], jb[1], jb[2], jb[3]), jobs, workers=4)
-    run.extra["cli_runs"] = len(jobs); run.extra["cli_max_wall_s"] = round(max(c["wall"] for c in cres), 2)
+    if ncli:
+        jobs += [(len(jobs) + j, "qbe-probe", {"main.fer": p}, "native", None) for j, p in enumerate(QBE_PROBES)]
+    def cli_job(jb):
+        if budget.stop():
+            return None
+        c = cli_case(work, jb[0], jb[1], jb[2], jb[3])
+        if any(kk.startswith(("hang", "crash")) and run._match_known(kk) is None for kk, _ in c["bad"]):
+            budget.note({"panic": "cli"})
+        return c
+    cres = common.pmap(cli_job, jobs, workers=4)
+    done = [c for c in cres if c is not None]
+    run.extra["cli_runs"] = len(done); run.extra["cli_max_wall_s"] = round(max([c["wall"] for c in done] or [0]), 2)
+    if len(done) < len(jobs):
+        run.extra["tie_stage_truncated"] = (run.extra.get("tie_stage_truncated", "") + "; CLI sample stopped after %d of %d runs: %s" % (len(done), len(jobs), budget.why)).lstrip("; ")
     for (j, k, files, mode, i), c in zip(jobs, cres):
+        if c is None:
+            continue
         run.case(("cli", canon_case(files), mode), nontrivial=True)
         run.count("cli:" + mode); run.count("cli-exit:%d" % c["rc"])
         for key, what in c["bad"]:
+            if key == "hang":
+                key = "hang:" + hashlib.sha256(repr(sorted((n, v) for n, v in files.items())).encode()).hexdigest()[:12]
             run.violation(key, "CLI: " + what, replay_dict(k, files, mode, {"observed": c["text"][:1500], "exit_status": c["rc"]}))
         if i is not None and mode == meta[i][3] and not res[i]["panic"] and c["rc"] in (0, 1) and (c["rc"] == 0) != res[i]["ok"]:
             run.violation("hook-vs-cli", "the in-process driver and the CLI disagree on acceptance", replay_dict(k, files, mode), no_input=False)
